@@ -94,6 +94,15 @@ class Pins:
         num = int(mm.group(1) + frac); den = 10 ** len(frac)
         self.items.append((name, "Q", (num, den), rel, self._line(text, m.start(1))))
 
+    def flag(self, name, rel, regex, flags=0):
+        """Pin a boolean (N 1/0): does `regex` match the source? (used for the order of two statements)"""
+        text = self.src(rel)
+        if text is None:
+            self.broken.append({"pin": name, "file": rel, "why": "file missing"}); return
+        m = re.search(regex, text, flags | re.M | re.S)
+        self.env[name] = 1 if m else 0
+        self.items.append((name, "N", 1 if m else 0, rel, self._line(text, m.start()) if m else 0))
+
     def string(self, name, rel, regex, flags=0):
         text = self.src(rel)
         if text is None:
